@@ -79,9 +79,32 @@ def run(ctx):
                 scal = [OU.convert(v, a, b) for v in vs]
                 fn = OU.convert_function(a, b)
                 fnv = [fn(v) for v in vs]
-                arr_copy = OU.convert_array(arr.copy(), a, b)
-                arr_in = arr.copy()
+                # the arrays handed over are what callers have: a contiguous array, one channel column of a frame matrix, every second
+                # frame, a reversed view - element i is vs[i] in each; memory next to a view must stay as it was
+                lay = npairs % 4
+                n_ = len(vs)
+                if lay == 0:
+                    base = arr.copy()
+                    view = base
+                elif lay == 1:
+                    base = np.full((n_, 3), 7.25)
+                    base[:, 1] = arr
+                    view = base[:, 1]
+                elif lay == 2:
+                    base = np.full(2 * n_, 7.25)
+                    base[::2] = arr
+                    view = base[::2]
+                else:
+                    base = arr[::-1].copy()
+                    view = base[::-1]
+                arr_copy = OU.convert_array(view.copy() if lay == 0 else view, a, b)
+                if lay and not np.array_equal(view, arr):
+                    report('value', 'convert_array changed the array it was given (%s -> %s, layout %d)' % (a.code, b.code, lay), dict(a=a.code, b=b.code, fn='convert_array'))
+                arr_in = view
                 OU.convert_array_inplace(arr_in, a, b)
+                if (lay == 1 and not (np.all(base[:, 0] == 7.25) and np.all(base[:, 2] == 7.25))) or (lay == 2 and not np.all(base[1::2] == 7.25)):
+                    report('value', 'convert_array_inplace on a view (%s -> %s, layout %d) changed memory outside the view' % (a.code, b.code, lay),
+                           dict(a=a.code, b=b.code, fn='convert_array_inplace'))
             except Exception as e:
                 report('same-dimension-raises', 'conversion %s -> %s (dimension %s) raised %s: %s' % (a.code, b.code, dim, type(e).__name__, e),
                        dict(a=a.code, b=b.code))
